@@ -204,6 +204,7 @@ func (c *Chunk) record(chunk pb.Chunk) *tracked {
 		if td != nil {
 			plog.Warningf("removing unclaimed chunks %s", key)
 			c.removeTempDir(td.first)
+			c.resetLocked(key)
 		} else {
 			if c.full() {
 				plog.Errorf("max slot count reached, dropped a chunk %s", key)
